@@ -99,6 +99,9 @@ def gen(rng, n, tier):
                 for o in tr:
                     if o[0] in xs:
                         o[0] += 0.125
+        if rng.random() < 0.4:                                          # vertices with altitudes: along-edge distances stay planimetric (abs_curv is 2-D)
+            for e in edges:
+                e['z'] = [float(rng.randint(0, 60)) for _ in e['geom']]
         out.append({'edges': edges, 'tracks': tracks, 'radius': radius, 'noise': rng.choice([1.0, 5.0, 50.0]),
                     'res': rng.choice([None, [3, 3], [5, 1], [2.5, 7], [1.5, 1.5]]), 'margin': rng.choice([0.05, 0.15, 0.5])})
     return out
@@ -108,7 +111,7 @@ def build(case):
     from tracklib import Obs, ObsTime, ENUCoords, Track, Network, Node, Edge, SpatialIndex, computeAbsCurv
     net = Network()
     for k, e in enumerate(case['edges']):
-        tr = Track([Obs(ENUCoords(x, y, 0)) for x, y in e['geom']])
+        tr = Track([Obs(ENUCoords(x, y, z)) for (x, y), z in zip(e['geom'], e.get('z') or [0.0] * len(e['geom']))])
         computeAbsCurv(tr)
         ed = Edge(k + 1, tr); ed.orientation = e['o']; ed.weight = tr.length()
         net.addEdge(ed, Node(e['s'], tr.getFirstObs().position), Node(e['t'], tr.getLastObs().position))
